@@ -338,25 +338,33 @@ fn launch_rdp_thread<S: 'static + Read + Write + Send>(
     Ok(thread::spawn(move || {
         while wait_for_fd(handle as usize) && sync.load(Ordering::Relaxed) {
             let mut guard = rdp_client.lock().unwrap();
-            if let Err(error) = guard.read(|event| {
-                match event {
-                    RdpEvent::Bitmap(bitmap) => {
-                        bitmap_channel.send(bitmap).unwrap();
-                    },
-                    _ => println!("{}: ignore event", APPLICATION_NAME)
-                }
-            }) {
-                // Any error ends the session: an I/O or TLS error means the connection is gone
-                match error {
-                    Error::RdpError(e) => match e.kind() {
-                        RdpErrorKind::Disconnect => {
-                            println!("{}: Server ask for disconnect", APPLICATION_NAME);
+            // Several PDU can be received in one TLS record : the socket is then
+            // empty and select will wait for more traffic, so read until the
+            // TLS layer have no more decrypted data
+            loop {
+                if let Err(error) = guard.read(|event| {
+                    match event {
+                        RdpEvent::Bitmap(bitmap) => {
+                            bitmap_channel.send(bitmap).unwrap();
                         },
-                        _ => println!("{}: {:?}", APPLICATION_NAME, e)
-                    },
-                    e => println!("{}: {:?}", APPLICATION_NAME, e)
+                        _ => println!("{}: ignore event", APPLICATION_NAME)
+                    }
+                }) {
+                    // Any error ends the session: an I/O or TLS error means the connection is gone
+                    match error {
+                        Error::RdpError(e) => match e.kind() {
+                            RdpErrorKind::Disconnect => {
+                                println!("{}: Server ask for disconnect", APPLICATION_NAME);
+                            },
+                            _ => println!("{}: {:?}", APPLICATION_NAME, e)
+                        },
+                        e => println!("{}: {:?}", APPLICATION_NAME, e)
+                    }
+                    return;
                 }
-                break;
+                if guard.buffered_read_size() == 0 {
+                    break;
+                }
             }
         }
     }))
